@@ -480,6 +480,19 @@ PROPERTY_META = {
 for _i in range(1, 21):
     PROPERTY_META.setdefault("C%02d" % _i, {"claimed": False, "reason": NOT_YET})
 
+# Properties stated over histories of API calls on one handle: the representation
+# invariant INV is their induction hypothesis. Every harness that enforces an API
+# function (INV required and ensured) and every harness with a clause INV-keeping
+# rests on (label token INV) serves all of them.
+HISTORY_PROPS = ["C01", "C02", "C04", "C05", "C06", "C07", "C08", "C09", "C14", "C15", "C16", "C17"]
+INV_HARNESSES = ["reproc_start_parent", "reproc_start_child", "reproc_wait", "reproc_new", "reproc_terminate", "reproc_kill",
+                 "reproc_pid", "reproc_close", "reproc_read", "reproc_write", "reproc_stop", "reproc_destroy",
+                 "handle_destroy", "pipe_destroy", "redirect_destroy", "redirect_init", "setup_input", "pipe_init",
+                 "process_start_parent", "process_wait"]
+for _h in HARNESSES:
+    if _h["name"] in INV_HARNESSES:
+        _h["props"] = list(_h["props"]) + [p for p in HISTORY_PROPS if p not in _h["props"]]
+
 # C14 ends "no sequence of calls with valid pointers causes a crash, memory error or
 # undefined behaviour" and C05 "no ... memory ... leak": the unlabelled memory-safety /
 # undefined-behaviour obligations of every POSIX harness belong to C14 and its leak
